@@ -106,6 +106,25 @@ type c19Thread struct {
 	out  strings.Builder
 }
 
+// c19Creds: the callers keep their passwords in one buffer (as read from one
+// credentials file); each goroutine's password slice has the later entries as
+// spare capacity behind it.
+var c19Creds [16 * 12]byte
+
+func c19ResetCreds() {
+	for i := range c19Creds {
+		c19Creds[i] = '|'
+	}
+	for slot := 0; slot < 16; slot++ {
+		copy(c19Creds[slot*12:], fmt.Sprintf("password-%d", slot))
+	}
+}
+
+func c19CallerPw(slot int) []byte {
+	n := len(fmt.Sprintf("password-%d", slot))
+	return c19Creds[slot*12 : slot*12+n]
+}
+
 func c19Config(slot int) ref.Config {
 	cfg := defaultConfig()
 	cfg.Password = []byte(fmt.Sprintf("password-%d", slot))
@@ -140,6 +159,7 @@ func c19Config(slot int) ref.Config {
 // c19Prepare builds the thread's world and (outside the scheduler) its session.
 func c19Prepare(slot, workload int, y func(string), afterWorld func()) *c19Thread {
 	cfg := c19Config(slot)
+	c19ResetCreds()
 	if slot == 0 {
 		// an application that closed an earlier connection twice (Close is
 		// documented as safe to defer and often also called explicitly): nothing
@@ -164,7 +184,7 @@ func c19Prepare(slot, workload int, y func(string), afterWorld func()) *c19Threa
 		return []env.Answer{env.Honest()}
 	}
 	if c19NeedsSession[workload] {
-		s, err := th.w.Conn.NewV2Session(th.w.Ctx, &bmc.V2SessionOpts{SessionOpts: bmc.SessionOpts{Username: fmt.Sprintf("user%d", slot), Password: cfg.Password, MaxPrivilegeLevel: ipmi.PrivilegeLevelAdministrator}, CipherSuites: []ipmi.CipherSuite{ipmi.CipherSuite17}})
+		s, err := th.w.Conn.NewV2Session(th.w.Ctx, &bmc.V2SessionOpts{SessionOpts: bmc.SessionOpts{Username: fmt.Sprintf("user%d", slot), Password: c19CallerPw(slot), MaxPrivilegeLevel: ipmi.PrivilegeLevelAdministrator}, CipherSuites: []ipmi.CipherSuite{ipmi.CipherSuite17}})
 		if err != nil {
 			panic("C19 harness: session setup: " + err.Error())
 		}
@@ -178,7 +198,7 @@ func (th *c19Thread) run(slot, workload int) {
 	o := &th.out
 	switch workload {
 	case 0:
-		s, err := w.Conn.NewV2Session(w.Ctx, &bmc.V2SessionOpts{SessionOpts: bmc.SessionOpts{Username: fmt.Sprintf("user%d", slot), Password: w.BMC.Cfg.Password, MaxPrivilegeLevel: ipmi.PrivilegeLevelOperator}})
+		s, err := w.Conn.NewV2Session(w.Ctx, &bmc.V2SessionOpts{SessionOpts: bmc.SessionOpts{Username: fmt.Sprintf("user%d", slot), Password: c19CallerPw(slot), MaxPrivilegeLevel: ipmi.PrivilegeLevelOperator}})
 		fmt.Fprintf(o, "session err=%v;", err)
 		if err == nil {
 			fmt.Fprintf(o, "suite=%v/%v/%v sik=%x;", s.AuthenticationAlgorithm, s.IntegrityAlgorithm, s.ConfidentialityAlgorithm, s.SIK)
